@@ -6,6 +6,7 @@ import (
 	"reflect"
 	"strconv"
 	"strings"
+	"time"
 	"unicode/utf8"
 
 	"github.com/zmap/zcrypto/encoding/asn1"
@@ -92,6 +93,10 @@ func isIntKind(k string) bool { return k == "i64" || k == "i32" || k == "enum" }
 //     BitStrings with consistent length and zero padding, strings valid for their kind (IMPLICIT-tagged strings
 //     without a string kind: PrintableString alphabet incl. '*' and '&'), RawValue.FullBytes = one canonical TLV
 //     agreeing with Class/Tag/IsCompound/Bytes
+//   - time.Time (T3-only stream, see time.go): year 0..9999 in the value's own zone, zone offset a whole number of
+//     minutes below 24 h; `utc` only on years 1950..2049; an IMPLICIT-tagged time without `generalized` only on
+//     years 1950..2049 (the wire form does not say which of the two time types follows); an optional field holding
+//     the zero instant is exactly time.Time{}
 func InDomain(s *Sch, tag string, v reflect.Value, last bool) string {
 	p := ParsePrm(tag)
 	if p.Application && p.Private {
@@ -109,7 +114,7 @@ func InDomain(s *Sch, tag string, v reflect.Value, last bool) string {
 	if p.Str != "" && s.Kind != "str" {
 		return "string kind on non-string"
 	}
-	if p.Time != "" {
+	if p.Time != "" && s.Kind != "time" {
 		return "time kind on non-time"
 	}
 	if p.Set && !(s.Kind == "S" || s.Kind == "L") {
@@ -208,6 +213,10 @@ func InDomain(s *Sch, tag string, v reflect.Value, last bool) string {
 		if string(want) != string(r.FullBytes) {
 			return "RawValue.FullBytes not the canonical TLV"
 		}
+	case "time":
+		if why := timeInDomain(p, v.Interface().(time.Time)); why != "" {
+			return why
+		}
 	case "S":
 		seen := map[string]bool{}
 		for i, f := range s.Fields {
@@ -301,6 +310,12 @@ func Equal(s *Sch, tag string, a, b reflect.Value) bool {
 	case "raw":
 		x, y := a.Interface().(asn1.RawValue), b.Interface().(asn1.RawValue)
 		return x.Class == y.Class && x.Tag == y.Tag && x.IsCompound == y.IsCompound && string(x.Bytes) == string(y.Bytes) && string(x.FullBytes) == string(y.FullBytes)
+	case "time":
+		// to the second, same instant and same zone offset (sub-second precision is not representable)
+		x, y := a.Interface().(time.Time), b.Interface().(time.Time)
+		_, ox := x.Zone()
+		_, oy := y.Zone()
+		return x.Unix() == y.Unix() && ox == oy
 	case "S":
 		for i, f := range s.Fields {
 			if !Equal(f.S, f.Tag, a.Field(i), b.Field(i)) {
